@@ -7,6 +7,7 @@ import build as B
 import common as H
 from common import Case, Tree
 from nutree.diff import DiffClassification as DC
+from nutree.diff import diff_node_formatter
 
 GONE = (DC.REMOVED, DC.MOVED_TO)
 NEW = (DC.ADDED, DC.MOVED_HERE)
@@ -182,8 +183,8 @@ class Prop:
     shard = 250
     rule = ("a case is one pair (t0, t1) of plain trees over a shared alphabet of strings, run through Tree.diff with "
             "ordered x reduce in {F,T}^2 (4 calls per case).  Enumerated: every pair of sibling-unique labelled forests with "
-            "<= N nodes each over 3 labels, one representative per renaming of the labels (quick N=3; thorough N=3 plus all pairs with "
-            "<= 4 nodes each whose sizes sum to <= 7 and a seeded sample of the 4x4 pairs); random: mutated copies (add/remove/move/"
+            "<= N nodes each over 3 labels, one representative per renaming of the labels (quick N=3; thorough N=3 plus all pairs (4 nodes, "
+            "<= 3 nodes) and seeded samples of the (<= 3, 4) and (4, 4) pairs); random: mutated copies (add/remove/move/"
             "swap/relabel/sort, 0-6 steps) of random trees with up to 14 (thorough 30) nodes over 3-6 labels, unrelated random pairs, "
             "identical copies; plus an out-of-domain stream (equal-comparing objects under explicit data_ids, where diff may raise "
             "UniqueConstraintError) on which only model = implementation and 'inputs unchanged' are checked.  distinct = distinct "
@@ -227,12 +228,13 @@ class Prop:
                 for f1 in upto3:
                     if canonical_pair(f0, f1):
                         yield dict(univ=univ3, t0=to_nodes(f0), t1=to_nodes(f1))
-                    if canonical_pair(f1, f0):
-                        yield dict(univ=univ3, t0=to_nodes(f1), t1=to_nodes(f0))
-            for _ in range(6000):
+            for _ in range(3000):
+                f0, f1 = rng.choice(upto3), rng.choice(small[4])
+                yield dict(univ=univ3, t0=to_nodes(f0), t1=to_nodes(f1))
+            for _ in range(3000):
                 f0, f1 = rng.choice(small[4]), rng.choice(small[4])
                 yield dict(univ=univ3, t0=to_nodes(f0), t1=to_nodes(f1))
-        nrand = 250 if tier == "quick" else 3000
+        nrand = 250 if tier == "quick" else 2000
         nmax = 14 if tier == "quick" else 30
         for i in range(nrand):
             k = rng.choice([3, 3, 4, 6])
@@ -247,15 +249,21 @@ class Prop:
                 t1 = rand_nodes(rng, rng.randint(0, nmax), k)
             yield dict(univ=LABELS[:k], t0=t0, t1=t1)
         # out of the theorem's domain: equal-comparing objects under explicit ids
-        nout = 40 if tier == "quick" else 400
+        nout = 80 if tier == "quick" else 600
         for i in range(nout):
             univ = ["e:1", "e:1", "e:2", "s:a", "i:1", "t:1"]
             n = rng.randint(1, 6)
 
+            pool = rng.random() < 0.6
+            pool_map = [rng.choice(["k0", "k1", "k2", None, None]) for _ in range(6)]
+
             def lab(nodes, pfx):
                 out = []
                 for j, (l, _, _, ch) in enumerate(nodes):
-                    did = f"{pfx}{j}" if (l < 3 and rng.random() < 0.7) else None
+                    if pool:   # ids from a small pool, unrelated to the data: equal ids on unequal data and vice versa
+                        did = pool_map[l]
+                    else:
+                        did = f"{pfx}{j}" if (l < 3 and rng.random() < 0.7) else None
                     out.append([l, None, did, lab(ch, pfx + str(j))])
                 return out
 
@@ -322,7 +330,8 @@ class Prop:
             hints = [h - base for h in compute_hints(res, t0, t1)]
             coq_cfgs.append(f"({H.coq_bool(ordered)}, {H.coq_bool(reduce)}, {H.coq_list(H.z(h) for h in hints)})")
             rm = res._root._meta or {}
-            obs_runs.append([enc_meta(rm), obs_forest(res._root, U)])
+            labels = [diff_node_formatter(n) for n in B.all_nodes(res._root)] if (ordered and not reduce) else []
+            obs_runs.append([enc_meta(rm), obs_forest(res._root, U), labels])
             if not outside:
                 f, st = oracle(t0, t1, res, ordered, reduce, snap)
                 marks += st["marks"]
@@ -331,7 +340,7 @@ class Prop:
                     fails.append(f"{f} [ordered={ordered} reduce={reduce}]")
         obs = [obs_runs, before[0], before[1], not outside]
         # the model is compared against the inputs as observed AFTER the calls
-        obs[1], obs[2] = sx_forest(t0._root, U, base), sx_forest(t1._root, U, base)
+        obs[1], obs[2] = sx_in(t0._root, U, base), sx_in(t1._root, U, base)
         coq_input = f"({in0}, {in1}, {H.coq_list(coq_cfgs)})"
         n0, n1 = B.nodes_size(desc["t0"]), B.nodes_size(desc["t1"])
         return Case(desc=desc, coq_input=coq_input, impl_obs=obs, oracle_fail="; ".join(fails[:3]) if fails else None,
@@ -350,11 +359,17 @@ def coq_forest(root, U, base):
 
 
 def sx_rt(node, U, base):
+    """full observation of an input node (identity, payload incl. meta, children): compared before/after in Python"""
     return [H.nid(node) - base, H.sx_info(node, U), [sx_rt(c, U, base) for c in (node._children or [])]]
 
 
 def sx_forest(root, U, base):
     return [sx_rt(c, U, base) for c in (root._children or [])]
+
+
+def sx_in(root, U, base):
+    """compact observation of an input tree for the model comparison: identity, data object, children"""
+    return [[H.nid(c) - base, U.index(c._data), sx_in(c, U, base)] for c in (root._children or [])]
 
 
 def enc_meta_val(v):
@@ -364,13 +379,21 @@ def enc_meta_val(v):
     return H.meta_val(v)
 
 
+KEYCODE = {"dc": 1, "dc_renumbered": 2}
+
+
 def enc_meta(meta):
-    return [[str(k), enc_meta_val(v)] for k, v in (meta or {}).items()]
+    return [[KEYCODE.get(str(k), str(k)), enc_meta_val(v)] for k, v in (meta or {}).items()]
 
 
-def obs_info(node, U):
-    a = U.info(node._data)
-    return [a["obj"], H.sx_did(node._data_id), H.sx_kind(getattr(node, "kind", None)), enc_meta(node._meta)]
+def obs_D(node):
+    """0 = data_id is hash(data) and the node is a plain one (what every node of t2 must be); else the full pair"""
+    kind = getattr(node, "kind", None)
+    try:
+        plain = kind is None and type(node._data_id) is int and node._data_id == hash(node._data)
+    except TypeError:
+        plain = False
+    return 0 if plain else [H.sx_did(node._data_id), H.sx_kind(kind)]
 
 
 def in_domain(ch0, ch1):
@@ -392,7 +415,7 @@ def in_domain(ch0, ch1):
 
 
 def obs_forest(root, U):
-    return [[obs_info(c, U), obs_forest(c, U)] for c in (root._children or [])]
+    return [[U.index(c._data), obs_D(c), enc_meta(c._meta), obs_forest(c, U)] for c in (root._children or [])]
 
 
 # ---------------------------------------------------------------------------
